@@ -98,9 +98,145 @@ var (
 	apiReported int
 )
 
+// fingerprint: an exact rendering of a Go value as the library sees it: element order, nil-ness of slices and maps,
+// the Go type of every leaf, spare capacity of slices, pointers/functions/channels by identity. Two fingerprints of
+// one document taken before and after a search differ iff the search wrote to the document.
+func fingerprint(v any) string {
+	var b strings.Builder
+	var walk func(v any, depth int)
+	walk = func(v any, depth int) {
+		if depth > 200 {
+			b.WriteString("...")
+			return
+		}
+		switch v := v.(type) {
+		case nil:
+			b.WriteString("null")
+		case []any:
+			if v == nil {
+				b.WriteString("NILSLICE")
+				return
+			}
+			b.WriteByte('[')
+			full := v[:cap(v)]
+			for i, x := range full {
+				if i == len(v) {
+					b.WriteString("|spare:")
+				}
+				walk(x, depth+1)
+				b.WriteByte(',')
+			}
+			b.WriteByte(']')
+		case map[string]any:
+			if v == nil {
+				b.WriteString("NILMAP")
+				return
+			}
+			keys := make([]string, 0, len(v))
+			for k := range v {
+				keys = append(keys, k)
+			}
+			sort.Strings(keys)
+			b.WriteByte('{')
+			for _, k := range keys {
+				fmt.Fprintf(&b, "%q:", k)
+				walk(v[k], depth+1)
+				b.WriteByte(',')
+			}
+			b.WriteByte('}')
+		case string:
+			fmt.Fprintf(&b, "%q", v)
+		case json.Number:
+			fmt.Fprintf(&b, "n%q", string(v))
+		case bool, int, int8, int16, int32, int64, uint, uint8, uint16, uint32, uint64, float32, float64:
+			fmt.Fprintf(&b, "%T(%v)", v, v)
+		case decimal128.Decimal:
+			fmt.Fprintf(&b, "d(%s)", v.String())
+		default:
+			fmt.Fprintf(&b, "%T@%p", v, v)
+		}
+	}
+	func() {
+		defer func() { recover() }() // %p of a non-pointer foreign value
+		walk(v, 0)
+	}()
+	return b.String()
+}
+
+// nilContainer stands in an observed result for a nil []any / map[string]any the library returned although the
+// document holds none: such a value is an array (object) to type() and length() but serialises as null, so it is
+// not the JSON value any specification assigns. Every comparison against it fails (the model sees a foreign value).
+type nilContainer struct{ Kind string }
+
+func markNilContainers(v any) (any, bool) {
+	switch x := v.(type) {
+	case []any:
+		if x == nil {
+			return nilContainer{"nil []any"}, true
+		}
+		var c []any
+		for i, e := range x {
+			if m, bad := markNilContainers(e); bad {
+				if c == nil {
+					c = append([]any{}, x...)
+				}
+				c[i] = m
+			}
+		}
+		if c != nil {
+			return c, true
+		}
+	case map[string]any:
+		if x == nil {
+			return nilContainer{"nil map[string]any"}, true
+		}
+		var c map[string]any
+		for k, e := range x {
+			if m, bad := markNilContainers(e); bad {
+				if c == nil {
+					c = make(map[string]any, len(x))
+					for k2, e2 := range x {
+						c[k2] = e2
+					}
+				}
+				c[k] = m
+			}
+		}
+		if c != nil {
+			return c, true
+		}
+	}
+	return v, false
+}
+
+// properties for which "the search wrote to its input document" is a violation in itself: what they promise about a
+// search on a document is void if the document is no longer the one the caller built
+var inputGuardProps = map[string]bool{"C01": true, "C02": true, "C06": true, "C07": true, "C13": true, "C15": true, "C17": true, "C18": true, "C19": true, "C20": true}
+var inputGuardReported int
+
 func search(expr string, data any) Obs {
 	progress(expr)
+	guard := activeSum != nil && data != nil
+	var before string
+	var pre any
+	if guard {
+		before = fingerprint(data)
+		if len(before) < 4000 {
+			pre = deepCopy(data)
+		}
+	}
 	o := observe(func() (any, error) { return jmespath.Search(expr, data) })
+	if guard && inputGuardProps[activeSum.Property] && inputGuardReported < 5 {
+		if after := fingerprint(data); after != before {
+			inputGuardReported++
+			activeSum.direct("input-modified", expr, pre, fmt.Sprintf("the search wrote to its input document: before %.300s after %.300s", before, after))
+		}
+	}
+	if o.Kind == "val" && !strings.Contains(before, "NIL") {
+		if m, bad := markNilContainers(o.Value); bad {
+			o.Value = m
+		}
+	}
 	if activeSum == nil || o.Kind == "panic" {
 		return o
 	}
